@@ -205,6 +205,8 @@ def genRun {α : Type} (io : Io α) (op : String) (args : List Arg) : Option Str
   | "naive_multiply", [a, b] => do
       let a ← io.poly? a; let b ← io.poly? b; small a; small b; pure (okPO (Gen.Poly.naive_multiply F F F F.mul a b))
   | "slow_square", [a] => do let a ← io.poly? a; small a; pure (okPO (Gen.Poly.slow_square F a))
+  | "pow", [a, .nat e] => do
+      let a ← io.poly? a; small a; if e ≥ 2 ^ 32 || a.length * e > 4096 then none else pure (okPO (Gen.Poly.pow F a e))
   | "multiply", [a, b] => do
       let a ← io.poly? a; let b ← io.poly? b; small a; small b
       pure (okPO (Gen.Poly.multiply F F F F.mul (fastMultiply F io.T) a b))
